@@ -92,7 +92,7 @@ URL_IN_HTML_RE = re.compile(URL_IN_HTML, re.I)
 URL_IN_HTML_BINARY_RE = re.compile(URL_IN_HTML_BINARY, re.I)
 
 QUERY_VALUE_IN_URL_TEMPLATE = r"(?:^|[?&])(%s)=([^&]+)"
-QUERY_VALUE_TEMPLATE = r"%s=([^&]+)"
+QUERY_VALUE_TEMPLATE = r"%s=([^&#]+)"
 
 # NOTE: neither the userinfo nor the hostname labels can contain characters
 # delimiting the other parts of the url, and the hostname can be directly
